@@ -13,9 +13,32 @@ V4_IPS = ["127.0.0.2", "127.0.0.3", "127.0.0.4", "127.0.0.5"]
 def scenario(ctx, trace, run_id, sw, ww, rnd, nops, max_offers=3, rst_closes=True):
     port = free_port(socket.SOCK_STREAM)
     cfg = ws_config(port, sw, ww, max_offers=max_offers, max_scrape=255, addr="[::]")
+    # configurations with several socket workers also answer plain-HTTP health checks on the same port
+    # (the connection task peeks at the first bytes): the WebSocket behaviour must not depend on it
+    health = sw > 1
+    cfg["network"]["enable_http_health_checks"] = health
     t = Tracker(ctx, "ws", cfg, "c17_%d_%d" % (sw, ww))
     clients = {}
-    stats = {"ops": 0, "frames": 0, "closes": 0}
+    stats = {"ops": 0, "frames": 0, "closes": 0, "health_probes": 0, "health_ok": 0}
+
+    def health_probe():
+        stats["health_probes"] += 1
+        data = b""
+        try:
+            s = socket.create_connection(("127.0.0.1", port), timeout=2.0)
+            s.sendall(b"GET /health HTTP/1.1\r\nHost: x\r\n\r\n")
+            s.settimeout(2.0)
+            while len(data) < 200:
+                chunk = s.recv(200)
+                if not chunk:
+                    break
+                data += chunk
+            s.close()
+        except OSError:
+            pass        # the tracker closes with the request unread, which resets the connection after the reply
+        if data.startswith(b"HTTP/1.1 200") and data.endswith(b"Ok"):
+            stats["health_ok"] += 1
+
     try:
         tcp_wait_ready(("127.0.0.1", port), tracker=t)
         trace.append({"ev": "reset", "run": run_id, "tracker": "ws", "socket_workers": sw, "swarm_workers": ww,
@@ -40,6 +63,8 @@ def scenario(ctx, trace, run_id, sw, ww, rnd, nops, max_offers=3, rst_closes=Tru
             if cl.closed:
                 continue
             stats["ops"] += 1
+            if health and stats["ops"] % 9 == 0:
+                health_probe()
             if op["op"] == "announce":
                 offers = op["offers"]
                 cl.send_text(announce_msg(op["h"], op["pid"], op["event"], op["left"], offers, op["answer"]),
@@ -285,7 +310,7 @@ def run(ctx):
     cargo_build(ctx)
     trace = []
     combos = [(1, 1), (2, 3), (3, 2)] if ctx.quick() else [(s, w) for s in (1, 2, 3) for w in (1, 2, 3)]
-    total = {"ops": 0, "frames": 0, "closes": 0}
+    total = {"ops": 0, "frames": 0, "closes": 0, "health_probes": 0, "health_ok": 0}
     for k, (sw, ww) in enumerate(combos):
         st = scenario(ctx, trace, k, sw, ww, rnd, 90 if ctx.quick() else 220)
         for x in total:
@@ -311,6 +336,7 @@ def run(ctx):
     ctx.coverage.update({
         "configurations": ["%dx%d" % c for c in combos], "client_operations": total["ops"],
         "frames_received": total["frames"], "connections_closed": total["closes"], "frames_by_kind": kinds,
+        "http_health_probes_between_operations (informational)": {"sent": total["health_probes"], "answered_200_Ok": total["health_ok"]},
         "rule": "running WebTorrent trackers (socket x swarm workers) behind a dual-stack listener; several "
                 "WebSocket clients (IPv4 via mapped addresses, ::1) announce with offers, answer, scrape, announce a "
                 "second peer id, close with a close frame or an abrupt RST, one operation at a time; after each "
